@@ -439,7 +439,10 @@ pub fn increasing_values(n: usize, rng: &mut Rng, start_zero: bool) -> Vec<u64> 
             continue;
         }
         let step = match class {
-            1 => 1 + rng.below(1 << (8 * (1 + rng.below(6)))),
+            1 => {
+                let w = 8 * (1 + rng.below(6));
+                1 + rng.below(1 << w)
+            }
             3 => 1 + rng.below(spread),
             _ => match rng.below(6) {
                 0 => 1,
